@@ -1,10 +1,10 @@
 SPECIFICATION GSpec
 CONSTANTS
   M = 1073741824
-  Keeps = {0, 1, 2, 3}
+  Keeps = {0, 1, 3, 4}
   Sets = {0, 1, 2}
   MaxRuns = 5
-  Bases = {0, 536870910, 1073741821, 536870912}
+  Bases = {0, 536870910, 1073741821, 1073741822, 536870912}
   Variant = "intended"
 CONSTRAINT RunBound
 INVARIANT Emit
